@@ -1156,7 +1156,9 @@ func (w *jobWorld) onJobWrite(wr sim.Write) {
 			}
 		}
 		// C10: the write that makes a non-deleting job finished.
-		if nf := new.Status.Condition.Finished; nf != nil && (old.Status.Condition.Finished == nil || old.Status.Condition.Finished.Result != nf.Result) {
+		// (a Job that is being deleted is forced to Killed / may be re-evaluated while its tasks are torn down:
+		// the property exempts it)
+		if nf := new.Status.Condition.Finished; nf != nil && (old.Status.Condition.Finished == nil || (old.Status.Condition.Finished.Result != nf.Result && new.DeletionTimestamp == nil)) {
 			w.Count("C10.finish-write")
 			fin := new.Status.Condition.Finished
 			if new.DeletionTimestamp == nil {
